@@ -226,6 +226,15 @@ CHECKS["C23"] = dict(level="exploration", technique="conversion graph + exact op
          "Stress conversions Cauchy/PK1/PK2/corotational are judged by their defining relations and round trips.",
     note="DT_DELOG converters: only direct-vs-chained agreement (1e-9 residual), values belong to C24. DSIG_DDE / DS_DDF have no converter. Integer F and moduli only; rational rotations "
          "not used (signed permutations are the large rotations).", ref="8/C23")
+CHECKS["C22"] = dict(level="exploration", technique="TLC-generated lattice + exact integer relations between criteria (Criteria.tla) + error classes of the real code's derivatives against finite differences of the same code instantiated in long double, judged by TLC",
+    text="12 criteria x 53 parameter sets x integer stress lattices in 1D/2D/3D (every diagonal stress over -2..2, shear patterns, binary scales 2^30 / 2^-20, nearly coincident principal stresses 2^-20 / 2^-45). TLC holds the exact polynomial relations (Hosford(2)=Hosford(4)=Mises, Hosford(6) closed form, Hosford(1)=Tresca, Tresca sandwich for a=100, Barlat(unit coefficients)=Hosford, Hill quadratic form, Drucker/Cazacu2001 seq^6=27(J2^3-cJ3^2), Cazacu2004(c=0), Mohr-Coulomb(phi=0)=Tresca/2-c, porous criteria at f=0 and on trace-free stresses), proves them on the lattice, and judges: the three variants agree, Euler n:s=seq, dn:s=0, dn symmetric, degree-one homogeneity under 2^h, invariance under axis permutations / reflections (values, normals, second derivatives), normal = gradient and second derivative = gradient of the normal (4th-order differences of the long double instantiation), porosity derivatives, documented zero returns on the hydrostatic axis.",
+    note="von Mises and Hill exist only as value / tensor at library level (value only). Hosford/Barlat a<2: value only; a=100: no finite differences of dn at corners; non-even exponents: nothing demanded from dn at exactly coincident principal stresses (|x|^a not C2-Lipschitz). Tolerance classes are constants of Criteria.tla (1e-11 algebraic, 1e-9/1e-7 finite differences, 1e-7..1e-5 at coincident principal stresses = accuracy of the default analytical eigen solver). Mohr-Coulomb is not differenced across the C1 transition |lode|=lodeT. Open findings: Mohr-Coulomb second derivative at |lode|=30 deg, value-only Cazacu2001 NaN on hydrostatic stress, GTN f=0 hydrostatic. Off-lattice stresses and rotated orthotropy frames not explored.", ref="8/C22")
+CHECKS["C25"] = dict(level="exploration", technique="exact rational reference model (Rat.tla, Homogenization.tla) whose ordering / coincidence theorems are proved by TLC on the lattice + TLC-generated microstructures judged by TLC (exact integers, clustered ranks, residual classes)",
+    text="Voigt, Reuss, Hashin-Shtrikman(-Walpole) bounds in 2D/3D for 1..5 phases (all pairs over a 3x3 / 4x4 lattice of integer (K,G) x fraction splits in eighths incl. 0 and 1, ordered / badly ordered / repeated 3-5-phase sets): exact values where 32-bit rationals allow, ranks Reuss<=HS-<=HS+<=Voigt with equality iff the present phases share the modulus; two-phase dilute / Mori-Tanaka closed forms for spheres (exact), MT = HS bound for an extreme matrix (theorem + exact), reductions to the matrix, ellipsoids with equal axes = spheres, aligned-MT symmetry; N-phase ParticulateMicrostructure: MT closed form, <A>=I and C=<C:A> for MT and SC, isotropy, position between the HS bounds, residual of the self-consistent equations; Eshelby / Hill / localisation tensors: sphere closed form (exact for rational nu), shape-independent traces S_ijij=3, S_iijj=(1+nu)/(1-nu), P_iijj, P_ijij (exact), Hill major symmetry, spheroid vs ellipsoid functions, covariance under axis relabelling, continuity at the sphere across the 1.5e-4 switch, numerical (anisotropic) Hill tensor vs closed form, A(I+P(Ci-C0))=I.",
+    note="Exact HS values only up to 3 phases (bulk) / 2 phases (shear) and when zero-fraction phases are not strict extremes (the code takes extremes over all listed phases). The dilute estimate is not compared where it predicts non-positive moduli. PCW / transverse-isotropic distributions, 2D inclusions, polarisation outputs and anisotropic matrices are not explored. Open finding: computeSelfConsistent does not embed the matrix phase (violates the HS upper bound).", ref="8/C25")
+CHECKS["C24"] = dict(level="exploration", technique="TLC-generated deformation gradients F=R.U with exact Hencky strain (integer matrices in units of ln2/|q|^4, Mat3.tla) + power identities and tangent moduli judged by TLC on error classes against 4th-order differences of the handler instantiated in long double",
+    text="U=Q.diag(2^k).Q^T with rational rotations from integer quaternions, every tie pattern of the stretch exponents, 2 rotations R, 2 dual stresses, isotropic / orthotropic / non-symmetric tangent operators, 1D/2D/3D, plus nearly coincident stretches 2^k(1+2^-t), t=10..50 across the 1e-14 threshold. Judged: E_log = log U exactly (both settings, array overload), T:dE_log = S:dE_GL = J sigma:d for every elementary dF in both settings, round trips, Lagrangian vs Eulerian Cauchy stress, sigma=F.S.F^T/J, material moduli = derivative of the converted stress for T(E)=T0+Ks:(E-E0), spatial moduli (both settings) = push-forward of the material moduli, Truesdell = spatial/J, symmetry for symmetric Ks.",
+    note="The statement's '1/2 log b in the Eulerian setting' contradicts the implemented and documented Miehe-Apel-Lambrecht strategy (strain is 1/2 log C in both settings, as the power identity requires): obligation replaced by 'same Lagrangian Hencky strain in both settings'. Abaqus moduli and the array overloads of the conversions are not explored; F not of the form R.U with rational rotations not explored. Open finding: precision loss for nearly coincident stretches.", ref="8/C24")
 CHECKS["C39"] = dict(level="model_checking", technique="decode table of K[0] and return convention in TLA+ judged by TLC on calls of a generated probe behaviour + TLC model checking of the entry-point stages",
     text="A probe behaviour with distinguishable operators (1,2,3 x Id predictions; 10..40 x Id tangents) and a run-time selectable failure "
          "stage is generated by the current mfront (small strain, GreenLagrange and Hencky variants) and called through the real generic "
